@@ -83,7 +83,25 @@ theorem hasName_iff {β : Type} {d : List (Name × β)} {a : Name} :
 
 theorem applyPrep_eq_missing (c : Nat) (v : Val) : applyPrep c v = .missing ↔ v = .missing := by
   unfold applyPrep
-  split <;> simp
+  split
+  · rfl
+  · simp
+  · split <;> simp
+  · rfl
+
+theorem applyItemPrep_eq_missing (ty : Ty) (n : Nat) (v : Val) : applyItemPrep ty n v = .missing ↔ v = .missing := by
+  unfold applyItemPrep
+  split
+  · simp
+  · split <;> simp
+  · rfl
+
+theorem prepareVal_eq_missing (env : Env) (im : Meta) (a : Name) (v : Val) :
+    prepareVal env im a v = .missing ↔ v = .missing := by
+  unfold prepareVal
+  split
+  · rfl
+  · rw [applyItemPrep_eq_missing, applyPrep_eq_missing]
 
 /-! ### plans: the assignments of one pass of the own-attribute loop -/
 
@@ -150,14 +168,14 @@ def ownPlan (env : Env) (im : Meta) (mroC : List Cls) (k : Cls) (kw : Kw) :
   | [] => []
   | (a, sp) :: r =>
     if qualifies im k a sp && resolveVal env mroC kw a sp != .missing then
-      (a, applyPrep (env.prep a) (resolveVal env mroC kw a sp)) :: ownPlan env im mroC k kw r
+      (a, prepareVal env im a (resolveVal env mroC kw a sp)) :: ownPlan env im mroC k kw r
     else ownPlan env im mroC k kw r
 
 theorem mem_ownPlan {env : Env} {im : Meta} {mroC : List Cls} {k : Cls} {kw : Kw}
     {attrs : List (Name × AttrSpec)} {a : Name} {v : Val} :
     (a, v) ∈ ownPlan env im mroC k kw attrs ↔
       ∃ sp, (a, sp) ∈ attrs ∧ qualifies im k a sp = true ∧ resolveVal env mroC kw a sp ≠ .missing ∧
-        v = applyPrep (env.prep a) (resolveVal env mroC kw a sp) := by
+        v = prepareVal env im a (resolveVal env mroC kw a sp) := by
   induction attrs with
   | nil => simp [ownPlan]
   | cons p r ih =>
@@ -200,19 +218,24 @@ theorem ownPlan_congr (env : Env) (im : Meta) (mroC : List Cls) (k : Cls) (kw1 k
     · simp only [Bool.not_eq_true] at hq
       simp [hq, ih']
 
-theorem setAttr_ok (env : Env) (s s1 : St) (a : Name) (v : Val)
-    (h : setAttr env s a v = (s1, none)) (hv : v ≠ .missing) :
-    s1 = { fields := dictSet s.fields a (applyPrep (env.prep a) v), ovf := s.ovf,
-           trace := s.trace ++ [Ev.set a (applyPrep (env.prep a) v)] } := by
+theorem setAttr_ok (env : Env) (im : Meta) (s s1 : St) (a : Name) (v : Val)
+    (h : setAttr env im s a v = (s1, none)) (hv : v ≠ .missing) :
+    s1 = { fields := dictSet s.fields a (prepareVal env im a v), ovf := s.ovf,
+           trace := s.trace ++ [Ev.set a (prepareVal env im a v)] } := by
   unfold setAttr at h
-  have hp : applyPrep (env.prep a) v ≠ .missing := by rw [Ne, applyPrep_eq_missing]; exact hv
+  have hp : prepareVal env im a v ≠ .missing := by rw [Ne, prepareVal_eq_missing]; exact hv
   simp only [hp, if_false] at h
   split at h
   · simp at h
   · split at h
-    · simp only [Prod.mk.injEq, and_true] at h
-      rw [← h]; simp [St.emit]
-    · simp at h
+    · rename_i hc
+      simp only [Bool.and_eq_true, Option.isSome_iff_ne_none] at hc
+      simp only [Prod.mk.injEq] at h
+      exact absurd h.2 hc.2
+    · split at h
+      · simp only [Prod.mk.injEq, and_true] at h
+        rw [← h]; simp [St.emit]
+      · simp at h
 
 /-- A successful pass of the own-attribute loop is the application of its plan. -/
 theorem ownLoop_ok (env : Env) (im : Meta) (mroC : List Cls) (k : Cls) (kw : Kw)
@@ -253,14 +276,14 @@ theorem ownLoop_ok (env : Env) (im : Meta) (mroC : List Cls) (k : Cls) (kw : Kw)
         have hv' : (resolveVal env mroC kw a sp != Val.missing) = true := by simpa using hv
         simp only [ownPlan, hq, hv', Bool.and_self, if_true]
         -- the write itself
-        cases hset : setAttr env s a (resolveVal env mroC kw a sp) with
+        cases hset : setAttr env im s a (resolveVal env mroC kw a sp) with
         | mk s1 o =>
           rw [hset] at h
           cases o with
           | some e => simp at h
           | none =>
             simp only at h
-            have hs1 := setAttr_ok env s s1 a _ hset hv
+            have hs1 := setAttr_ok env im s s1 a _ hset hv
             rw [ih _ h, hs1]
             simp [applyPlan, applyFields, List.append_assoc]
 
@@ -953,6 +976,7 @@ structure WFP (env : Env) (c : Cls) (k : ClsInfo) (im : Meta) : Prop where
       wfAttr true env.classes (mroOf env.classes c) k.cdef.mro k.cdef.name q = true
   key : ∀ kn, im.key = some kn → ∃ sp, assoc im.attrs kn = some sp ∧ sp.init = true ∧ im.ovf ≠ some kn ∧
       (sp.hasDefault = (nearestDefault env.classes (mroOf env.classes c) kn != .missing))
+  preps : ∀ q ∈ im.attrs, q.2.init = true → wfPrep env.classes (mroOf env.classes c) q = true
 
 theorem wfCall_spec {env : Env} {c : Cls} (h : wfCall env c = true) : ∃ k im, WFP env c k im := by
   unfold wfCall wfCallG at h
@@ -965,8 +989,8 @@ theorem wfCall_spec {env : Env} {c : Cls} (h : wfCall env c = true) : ∃ k im, 
     | none => simp [hm] at h
     | some im =>
       simp only [hm, Bool.and_eq_true, beq_iff_eq, decide_eq_true_eq, List.all_eq_true] at h
-      obtain ⟨⟨⟨⟨⟨⟨⟨⟨⟨h1, h2⟩, h3⟩, h4⟩, h5⟩, h6⟩, h7⟩, h8⟩, h9⟩, h10⟩ := h
-      refine ⟨k, im, ⟨hi, hm, h1, h2, h3, h4, h5, h6, ?_, ?_, h9, ?_⟩⟩
+      obtain ⟨⟨⟨⟨⟨⟨⟨⟨⟨⟨h1, h2⟩, h3⟩, h4⟩, h5⟩, h6⟩, h7⟩, h8⟩, h9⟩, h10⟩, h11⟩ := h
+      refine ⟨k, im, ⟨hi, hm, h1, h2, h3, h4, h5, h6, ?_, ?_, h9, ?_, ?_⟩⟩
       · intro kk hkk
         have := h7 kk hkk
         cases hf : findCls env.classes kk with
@@ -983,6 +1007,10 @@ theorem wfCall_spec {env : Env} {c : Cls} (h : wfCall env c = true) : ∃ k im, 
         | some sp =>
           simp only [ha, Bool.and_eq_true, beq_iff_eq, bne_iff_ne, ne_eq, Bool.not_true, Bool.false_or] at h10
           exact ⟨sp, rfl, h10.1.1, h10.1.2, h10.2⟩
+      · intro q hq hinit
+        simp only [Bool.not_true, Bool.false_or, List.all_eq_true] at h11
+        have := h11 q hq
+        simpa [hinit] using this
 
 
 
@@ -1112,7 +1140,7 @@ theorem WFP.mem_allPlan (kwargs : Kw) (a : Name) (v : Val) :
     (a, v) ∈ allPlan env im (mroOf env.classes c) k kwargs ↔
       ∃ sp, (a, sp) ∈ im.attrs ∧ sp.init = true ∧ some a ≠ im.ovf ∧
         resolveVal env (mroOf env.classes c) kwargs a sp ≠ .missing ∧
-        v = applyPrep (env.prep a) (resolveVal env (mroOf env.classes c) kwargs a sp) := by
+        v = prepareVal env im a (resolveVal env (mroOf env.classes c) kwargs a sp) := by
   unfold allPlan parentsPlan
   simp only [List.mem_append, List.mem_flatMap, List.mem_reverse]
   constructor
@@ -1155,7 +1183,7 @@ theorem WFP.field_of (kwargs : Kw) (a : Name) (sp : AttrSpec) (hm : (a, sp) ∈ 
     (hinit : sp.init = true) (hov : some a ≠ im.ovf) :
     assoc (finalState env im (mroOf env.classes c) k kwargs).fields a =
       if resolveVal env (mroOf env.classes c) kwargs a sp = .missing then none
-      else some (applyPrep (env.prep a) (resolveVal env (mroOf env.classes c) kwargs a sp)) := by
+      else some (prepareVal env im a (resolveVal env (mroOf env.classes c) kwargs a sp)) := by
   rw [w.final_fields]
   have huniq : ∀ sp', (a, sp') ∈ im.attrs → sp' = sp := by
     intro sp' h'
@@ -1539,20 +1567,20 @@ theorem quiet_append {a b : List Ev} (ha : Quiet a) (hb : Quiet b) : Quiet (a ++
 theorem quiet_sets (pl : Plan) : Quiet (pl.map (fun q => Ev.set q.1 q.2)) :=
   ⟨filterMap_set_ctor pl, filterMap_set_post pl⟩
 
-theorem setAttr_trace (env : Env) (s s1 : St) (a : Name) (v : Val) (h : setAttr env s a v = (s1, none)) :
+theorem setAttr_trace (env : Env) (im : Meta) (s s1 : St) (a : Name) (v : Val) (h : setAttr env im s a v = (s1, none)) :
     ∃ evs, s1.trace = s.trace ++ evs ∧ Quiet evs := by
   by_cases hv : v = .missing
   · subst hv
     unfold setAttr at h
-    have : applyPrep (env.prep a) Val.missing = .missing := by simp [applyPrep_eq_missing]
+    have : prepareVal env im a Val.missing = .missing := by simp [prepareVal_eq_missing]
     simp [this] at h
     exact ⟨[], by simp [← h], quiet_nil⟩
-  · have := setAttr_ok env s s1 a v h hv
-    refine ⟨[Ev.set a (applyPrep (env.prep a) v)], by rw [this], ?_⟩
+  · have := setAttr_ok env im s s1 a v h hv
+    refine ⟨[Ev.set a (prepareVal env im a v)], by rw [this], ?_⟩
     exact ⟨by simp [evCtor], by simp [evPost]⟩
 
-theorem handBody_trace (env : Env) : ∀ (bound : List (HandParam × Val)) (s s' : St),
-    handBody env bound s = (s', none) → ∃ evs, s'.trace = s.trace ++ evs ∧ Quiet evs := by
+theorem handBody_trace (env : Env) (im : Meta) : ∀ (bound : List (HandParam × Val)) (s s' : St),
+    handBody env im bound s = (s', none) → ∃ evs, s'.trace = s.trace ++ evs ∧ Quiet evs := by
   intro bound
   induction bound with
   | nil => intro s s' h; simp [handBody] at h; exact ⟨[], by simp [h], quiet_nil⟩
@@ -1564,14 +1592,14 @@ theorem handBody_trace (env : Env) : ∀ (bound : List (HandParam × Val)) (s s'
     | error e => simp [hf] at h
     | ok w =>
       simp only [hf] at h
-      cases hs : setAttr env s p.name w with
+      cases hs : setAttr env im s p.name w with
       | mk s1 o =>
         rw [hs] at h
         cases o with
         | some e => simp at h
         | none =>
           simp only at h
-          obtain ⟨e1, h1, q1⟩ := setAttr_trace env s s1 p.name w hs
+          obtain ⟨e1, h1, q1⟩ := setAttr_trace env im s s1 p.name w hs
           obtain ⟨e2, h2, q2⟩ := ih s1 s' h
           exact ⟨e1 ++ e2, by rw [h2, h1, List.append_assoc], quiet_append q1 q2⟩
 
@@ -1594,7 +1622,7 @@ theorem callParent_trace (env : Env) (im : Meta) (mroC : List Cls) (p : Cls) (pk
     | error e => simp [hb] at h
     | ok bound =>
       simp only [hb] at h
-      obtain ⟨evs, h1, q⟩ := handBody_trace env bound _ s' h
+      obtain ⟨evs, h1, q⟩ := handBody_trace env im bound _ s' h
       exact ⟨evs, by rw [h1]; simp [St.emit], q⟩
   | none =>
     simp only [hh] at h
